@@ -7,5 +7,6 @@ CONSTANTS
   FixEnqueue = FALSE
   FixBatch = FALSE
   LossySend = FALSE
+  HasKeepalive = TRUE
 POSTCONDITION TraceReport
 CHECK_DEADLOCK FALSE
